@@ -490,7 +490,26 @@ class Harness(object):
                 self.flags.add('waited_closed')
 
     def op_getters(self, op, before):
-        pass
+        """Every read-only query of the broker: none of them may fill an order, move cash or change a holding."""
+        b = self.b
+        snap = snapshot(b)
+        n_tx = len(self.txlog)
+        cur = b.base_currency
+        b.get_account_cash_balance()
+        b.get_account_cash_balance(cur)
+        b.get_account_total_market_value()
+        b.get_account_total_equity()
+        for pid in self.pids:
+            b.get_portfolio_cash_balance(pid)
+            b.get_portfolio_total_market_value(pid)
+            b.get_portfolio_total_equity(pid)
+            b.get_portfolio_as_dict(pid)
+        if len(self.txlog) != n_tx:
+            raise Violation('read-only queries at %s filled %s' % (self.t, [(p, t.asset, t.quantity) for p, t in self.txlog[n_tx:]]))
+        d = diff_snap(snap, snapshot(b))
+        if d:
+            raise Violation('read-only queries changed state: %s' % d)
+        self.flags.add('queries_between_operations')
 
     # ------------------------------------------------------------------------------------------ invalid requests (C15)
     BAD_KINDS = ['neg_asub', 'neg_awd', 'over_awd', 'neg_psub', 'over_psub', 'unk_psub', 'neg_pwd', 'over_pwd',
@@ -736,6 +755,13 @@ class Harness(object):
             if d:
                 raise Violation('update at %s outside exchange hours changed state: %s' % (self.t, d))
             return
+        # across the whole update (all portfolios): once a buy has been filled no sell follows
+        seq = [(p, t.asset, t.quantity) for p, t in new]
+        first_buy = next((i for i, x in enumerate(seq) if x[2] >= 0), None)
+        if first_buy is not None and any(x[2] < 0 for x in seq[first_buy:]):
+            raise Violation('update at %s (open) filled in the order %s: a sell follows a buy' % (self.t, seq))
+        if len(set(p for p, _, _ in seq)) > 1 and any(x[2] < 0 for x in seq) and any(x[2] >= 0 for x in seq):
+            self.flags.add('sells_and_buys_across_portfolios')
         for pid in self.pids:
             exp = sorted(pend_before[pid], key=lambda x: 0 if x[2] < 0 else 1)      # stable: FIFO inside a side
             got = [(t.order_id, t.asset, t.quantity) for p, t in new if p == pid]
@@ -1114,6 +1140,11 @@ def make_machine(mode, rec, part):
         def refused_in_between(self, kind, p, x):
             # requests that must be refused and leave no trace, in every mode (the full catalogue is C15's)
             self._do(['bad', kind, p, x])
+
+        @precondition(lambda self: self.h is not None)
+        @rule()
+        def queries(self):
+            self._do(['getters'])
 
         @rule(a=st.integers(0, 4), qt=quote_st())
         def quote(self, a, qt):
